@@ -719,6 +719,14 @@ class ReadParquetPyarrowFS(ReadParquet):
     _absorb_projections = True
     _filter_passthrough = True
 
+    def __reduce__(self):
+        # The cached dataset info holds pyarrow objects (``FileInfo``) that can
+        # not be pickled.  It is only a cache: the receiver collects it again.
+        typ, operands = super().__reduce__()
+        operands = list(operands)
+        operands[type(self)._parameters.index("_dataset_info_cache")] = None
+        return typ, tuple(operands)
+
     @cached_property
     def normalized_path(self):
         return _normalize_and_strip_protocol(self.path)
